@@ -328,3 +328,66 @@ pub fn run_pair(st: &mut C14Stats, shape: &BShape, script: &Script, fp: (&'stati
         st.samples.push(format!("{ctx}: {} B calls identical, answers {:?}", c1.len(), a1));
     }
 }
+
+/// Payment B alone vs. B plus an "intruder": an HTLC locked to another payment hash that
+/// carries B's invoice, arriving after B's first part. It must be passed on and must not
+/// be pooled into B (amounts, expiries).
+fn plan_intruder(with_x: bool, b_shape: BShape, seed_b: u64, seed_x: u64) -> impl FnOnce(&mut Rng) -> Plan {
+    move |_rng: &mut Rng| {
+        let cfg = cfg();
+        let local_sk = secret_key(&mut Rng::new(4242));
+        let local_pk = pubkey(&local_sk);
+        let (hb, vb) = one_hash(0, seed_b, local_pk, &cfg, &b_shape, 0);
+        let mut hashes = vec![];
+        let mut htlcs = vb.clone();
+        if with_x {
+            let mut rx = Rng::new(seed_x);
+            let mut xh = [0u8; 32];
+            xh.copy_from_slice(&rx.bytes(32));
+            let mut x = vb[0].clone();
+            x.uid = 100;
+            x.htlc_id = 100;
+            x.scid = "77x7x7".into();
+            x.htlc_hash = xh;
+            x.amount_msat = 5000 + rx.below(100_000);
+            x.forward_msat = Some(x.amount_msat);
+            x.cltv_expiry = cfg.start_height + cfg.policy_delta as u32 + 3; // lower than B's parts
+            x.label = ref_label(&xh, &x.onion_scid, &x.forward_msat, &x.metadata, true);
+            let info = HashInfo { idx: 1, preimage: [0u8; 32], hash: xh, hex: hex::encode(xh), tramp: hb.tramp.clone(), recipient: Recipient::FailAll };
+            htlcs.insert(1, x);
+            hashes.push(hb);
+            hashes.push(info);
+        } else {
+            hashes.push(hb);
+        }
+        Plan { cfg, local_sk, local_pk, hashes, htlcs }
+    }
+}
+
+pub fn run_intruder_pair(st: &mut C14Stats, shape: &BShape, script: &Script, seed: u64) {
+    let seed_b = mix(seed, 2);
+    let seed_x = mix(seed, 3);
+    let solo = run_one(RunOpts { seed, profile: Profile::Mixed, thorough: false, log_events: false, script: Some(script.clone()), plan_override: Some(Box::new(plan_intruder(false, shape.clone(), seed_b, seed_x))), target: None });
+    let duo = run_one(RunOpts { seed, profile: Profile::Mixed, thorough: false, log_events: false, script: Some(script.clone()), plan_override: Some(Box::new(plan_intruder(true, shape.clone(), seed_b, seed_x))), target: None });
+    st.pairs += 1;
+    let b_hex = solo.hash_hex[0].clone();
+    let (c1, a1) = b_trace(&solo, &b_hex);
+    let (c2, a2) = b_trace(&duo, &b_hex);
+    let ctx = format!("B={shape:?} script=({:?},before={},completes={},fuse={}) with an HTLC of another hash carrying B's invoice", script.pay_outcome, script.finish_before_resolve, script.part_completes, script.fuse);
+    st.classes.insert(format!("intruder|n={}|kind={}|{:?}", shape.n_htlcs, shape.kind, script.pay_outcome));
+    *st.evals.entry("R14a").or_insert(0) += 1;
+    *st.evals.entry("R14d").or_insert(0) += 1;
+    st.b_calls_compared += c1.len() as u64;
+    if c1 != c2 {
+        let first = c1.iter().zip(c2.iter()).position(|(x, y)| x != y).unwrap_or(c1.len().min(c2.len()));
+        st.v("R14d|pooled-across-hashes|rpc-sequence-differs".into(), format!("{ctx}: first difference at #{first}: alone={:?} with-intruder={:?}", c1.get(first), c2.get(first)));
+    } else if a1.iter().map(|x| &x.0).collect::<Vec<_>>() != a2.iter().map(|x| &x.0).collect::<Vec<_>>() {
+        st.v("R14d|pooled-across-hashes|answers-differ".into(), format!("{ctx}: alone={a1:?} with-intruder={a2:?}"));
+    }
+    // the intruder itself must not get B's outcome
+    for a in duo.answers.iter().filter(|a| a.hidx == Some(1)) {
+        if a.json.contains("resolve") {
+            st.v("R14d|intruder-got-other-hash-outcome".into(), format!("{ctx}: intruder answered {}", a.json));
+        }
+    }
+}
